@@ -112,16 +112,23 @@ def run(ck):
         if len(samples) < 3:
             samples.append(rep)
     # ---- (b) the binary with a pinned clock ------------------------------------------------------------------------
-    rounds = 30 if q else 600
-    for i in range(rounds):
+    rounds = 60 if q else 600
+    # combinations that every run sees: a zone NAME in the header x a local zone away from UTC x each verbosity
+    forced = [(zn, tzv, vb) for zn in ('GMT', 'UT', 'UTC') for tzv in ('Europe/Stockholm', 'America/New_York', 'Asia/Kolkata') for vb in ([], ['-v', '-v'], ['-vv'])]
+    if q:
+        forced = forced[rng.randrange(3)::3]
+    for i in range(rounds + len(forced)):
         val, true, layout, zone = gen_date(rng, special)
         tz = rng.choice(ZONES)
+        force = forced[i] if i < len(forced) else None
+        if force:
+            zone, tz = force[0], force[1]
         unit = rng.choice(sorted(UNITS))
         k = rng.choice([1, 2, 3, 59, 100])
         age = k * UNITS[unit]
         if age > 2 ** 32 - 1 or true + age + 1 > 2 ** 31 - 10:
             continue
-        kind = rng.choice(['header', 'header', 'modified', 'modified-in-attachment'])
+        kind = 'header' if force else rng.choice(['header', 'header', 'modified', 'modified-in-attachment'])
         # the file's timestamps are those of the message file, also where the condition is evaluated on a part of the message
         inatt = kind == 'modified-in-attachment'
         if inatt:
@@ -156,7 +163,9 @@ def run(ck):
         e = sb.env(env)
         if tz is None:
             e.pop('TZ', None)
-        rc, out, err = run_with_env(sb, conf, e)
+        # verbosity changes what is printed, never what is decided
+        verb = force[2] if force else rng.choice([[], [], ['-v'], ['-v', '-v'], ['-vv'], ['-v', '-v', '-v']])
+        rc, out, err = run_with_env(sb, conf, e, verb)
         stats['binary'] += 1
         moved = set()
         import re
@@ -167,8 +176,8 @@ def run(ck):
         # ages: j=0 -> age-1, j=1 -> age, j=2 -> age+1
         exp = {2} if cmp_ == '>' else {0}
         if moved != exp or rc != 0:
-            ck.violation('clock %d, TZ=%r, rule "date %s %s %d %s": messages aged N-1, N, N+1 seconds: moved %s, expected %s (exit %d) %s' %
-                         (now, tz, field, cmp_, k, unit, sorted(moved), sorted(exp), rc, err[-200:].decode(errors='replace')),
+            ck.violation('clock %d, TZ=%r, options %r, rule "date %s %s %d %s": messages aged N-1, N, N+1 seconds: moved %s, expected %s (exit %d) %s' %
+                         (now, tz, verb, field, cmp_, k, unit, sorted(moved), sorted(exp), rc, err[-200:].decode(errors='replace')),
                          {'config': open(conf).read(), 'TZ': tz, 'now': now, 'kind': kind, 'zone': zone, 'stderr': err[-300:].decode(errors='replace')})
         sb.cleanup()
         if len(ck.violations) > 5:
@@ -178,7 +187,7 @@ def run(ck):
         'distinct_nontrivial': stats['nontrivial'] + stats['binary'],
         'rule': 'instants uniform over 1970-2037 and within +-2 h of DST switches (EU, US, AU rules; 5 years); layouts %%a, %%d %%b %%Y %%H:%%M:%%S / without seconds / without weekday; zones '
                 '+-hhmm with hh in {0,1,2,3,5,9,11,12,13,14,23} and mm in {0,1,15,30,45,59}, GMT, UT, UTC; local TZ in %r; the clock set per request. Binary: three messages aged N-1, N, N+1 '
-                'seconds at the pinned clock (Date header in a random zone, or file mtime), rule [attachment] date [header|modified] > / < k unit for every unit spelling. '
+                'seconds at the pinned clock (Date header in a random zone, or file mtime), rule [attachment] date [header|modified] > / < k unit for every unit spelling, run with no, one, two or three -v. '
                 'non-trivial = a time_parse case that returned the true instant (then compared with the model) or a binary round' % ZONES,
         'samples': samples,
         'traces_validated_against_impl': stats['api'] + stats['binary'],
@@ -195,11 +204,11 @@ def zone_offset(zone):
     return 0
 
 
-def run_with_env(sb, conf, e):
+def run_with_env(sb, conf, e, args=()):
     import subprocess
     exe = os.path.join(common.scratch_build('plain'), 'mdsort')
     e = dict(e); e['LD_PRELOAD'] = SHIM
-    r = subprocess.run([exe, '-f', conf], cwd=sb.root, env=e, capture_output=True, timeout=60)
+    r = subprocess.run([exe, '-f', conf] + list(args), cwd=sb.root, env=e, capture_output=True, timeout=60)
     return r.returncode, r.stdout, r.stderr
 
 
